@@ -32,6 +32,12 @@ namespace squids{
 ///\brief Auxiliary function used for the GSL interface
 int RHS(double ,const double*,double*,void*);
 
+//what RHS needs to know about the Evolve call it serves
+struct rhs_context{
+  SQuIDS* solver;
+  double t_start; //the solver's time when Evolve was entered
+};
+
 SQuIDS::SQuIDS():
 CoherentRhoTerms(false),
 NonCoherentRhoTerms(false),
@@ -513,14 +519,8 @@ void SQuIDS::Evolve(double dt){
 
     // initial time
     
-    // ODE system error control
-    //(owned, so that it is also released when a user supplied term throws during the integration)
-    std::unique_ptr<gsl_odeiv2_driver,void (*)(gsl_odeiv2_driver*)>
-      d(gsl_odeiv2_driver_alloc_y_new(&sys,step,h,abs_error,rel_error),gsl_odeiv2_driver_free);
-    gsl_odeiv2_driver_set_hmin(d.get(),h_min);
-    gsl_odeiv2_driver_set_hmax(d.get(),h_max);
-    gsl_odeiv2_driver_set_nmax(d.get(),0);
-    
+    // ODE system error control: the driver is owned, so that it is also released when a
+    // user supplied term throws during the integration
     double* gsl_sys = system.get();
     
     //during the integration estate points into arrays owned by the driver; however the
@@ -535,37 +535,52 @@ void SQuIDS::Evolve(double dt){
     };
     
     //Derive() stores every stage time in t, so GSL gets a clock of its own: after a failed
-    //step it holds the time the returned state belongs to, while t holds some stage time
-    double t_gsl=t;
+    //step it holds the time the returned state belongs to, while t holds some stage time.
+    //That clock counts from the start of this call (RHS adds t_start): GSL measures its steps
+    //against the clock it integrates, so in absolute time any step below the spacing of
+    //doubles at t - every first step of a call starts at h - advances the state but not the
+    //clock, and n fixed steps accumulate n roundings of t.
+    rhs_context ctx{this,t};
+    gsl_odeiv2_system local_sys=sys;
+    local_sys.params=&ctx;
+    std::unique_ptr<gsl_odeiv2_driver,void (*)(gsl_odeiv2_driver*)>
+      d(gsl_odeiv2_driver_alloc_y_new(&local_sys,step,h,abs_error,rel_error),gsl_odeiv2_driver_free);
+    gsl_odeiv2_driver_set_hmin(d.get(),h_min);
+    gsl_odeiv2_driver_set_hmax(d.get(),h_max);
+    gsl_odeiv2_driver_set_nmax(d.get(),0);
+    double tau=0;
     try{
       if(adaptive_step){
-        gsl_status = gsl_odeiv2_driver_apply(d.get(), &t_gsl, t+dt, gsl_sys);
+        gsl_status = gsl_odeiv2_driver_apply(d.get(), &tau, dt, gsl_sys);
       }else{
-        gsl_status = gsl_odeiv2_driver_apply_fixed_step(d.get(), &t_gsl, dt/nsteps , nsteps , gsl_sys);
+        gsl_status = gsl_odeiv2_driver_apply_fixed_step(d.get(), &tau, dt/nsteps , nsteps , gsl_sys);
       }
     }catch(...){
       restore_estate();
-      t=t_gsl;
+      t=ctx.t_start+tau;
       throw;
     }
     restore_estate();
-    t=t_gsl;
     d.reset();
     
     if( gsl_status != GSL_SUCCESS ){
+      t=ctx.t_start+tau;
       throw std::runtime_error("SQUIDS::Evolve: Error in GSL ODE solver ("
                                +std::string(gsl_strerror(gsl_status))+")");
     }
+    t=ctx.t_start+dt;
   }else{
     t+=dt;
     PreDerive(t);
   }
 }
 
-int RHS(double t, const double* state_dbl_in, double* state_dbl_out, void* par){
-  SQuIDS* dms=static_cast<SQuIDS*>(par);
+int RHS(double tau, const double* state_dbl_in, double* state_dbl_out, void* par){
+  //tau is the time elapsed since the start of the current Evolve call
+  rhs_context* ctx=static_cast<rhs_context*>(par);
+  SQuIDS* dms=ctx->solver;
   dms->set_system_pointers(const_cast<double*>(state_dbl_in),state_dbl_out);
-  dms->Derive(t);
+  dms->Derive(ctx->t_start+tau);
   return 0;
 }
   
